@@ -309,10 +309,20 @@ class NamespaceClass(Namespace[symtable.Class]):
             return Name(id=name, ctx=Load())
         else:
             # a class member
-            return Subscript(
-                value=self.class_member_dict_expr,
-                slice=Constant(value=name),
-                ctx=Load(),
+            # if the member is not assigned yet,
+            # the global (or builtin) name is loaded instead
+            return IfExp(
+                test=Compare(
+                    left=Constant(value=name),
+                    ops=[In()],
+                    comparators=[self.class_member_dict_expr],
+                ),
+                body=Subscript(
+                    value=self.class_member_dict_expr,
+                    slice=Constant(value=name),
+                    ctx=Load(),
+                ),
+                orelse=Name(id=name, ctx=Load()),
             )
 
 
